@@ -74,8 +74,9 @@ Proof. intros limits gated ops h R. exact (no_publish_permission_no_media h (rea
 (* A publisher is created only with the permission: an offer the permissions do not allow is
    refused and nothing is created (a creation that was allowed when it started is checked again
    when it completes: finish_create, and C09_completion_owned_or_closed). *)
+(* media: the m-lines of the offer; a section with port 0 (bundle-only) counts like any other: eff_media *)
 Theorem C08_offer_needs_permission : forall h c sid s i stream media,
-  offer_allowed s.(s_perms) stream media = false ->
+  offer_allowed s.(s_perms) stream (eff_media media) = false ->
   do_media h c sid s (RSession i) 0 stream media = (h, [ToConn c (SError E_not_allowed)]).
 Proof. exact offer_needs_permission. Qed.
 
